@@ -111,15 +111,27 @@ def showEntries (r : Except Err (List Entry)) : String :=
 
 def splitList (s : String) : List String := if s = "-" then [] else s.splitOn ","
 
-/-- store objects `ty:datahex,…` named by SHA-1 as the real store would -/
-def parseStore (s : String) : Option Store :=
+/-- store objects `ty:datahex[:zlibhex],…` named by SHA-1 as the real store would; the optional third field is
+`zlib.compress(data)` at the store's level (the `deflate` parameter, needed when the object is appended to a thin pack) -/
+def parseStoreZ (s : String) : Option (List (Obj × Bytes)) :=
   (splitList s).mapM fun t =>
     match t.splitOn ":" with
     | [ty, d] => do
       let ty ← nat? ty
       let d ← bytes? d
-      mkObj Sha1.sha1 ty d
+      some (← mkObj Sha1.sha1 ty d, [])
+    | [ty, d, z] => do
+      let ty ← nat? ty
+      let d ← bytes? d
+      some (← mkObj Sha1.sha1 ty d, ← bytes? z)
     | _ => none
+
+def parseStore (s : String) : Option Store := (parseStoreZ s).map (·.map (·.1))
+
+def tableDeflate (sz : List (Obj × Bytes)) : Bytes → Bytes := fun d =>
+  match sz.find? (fun p => p.1.data == d) with
+  | some p => p.2
+  | none => []
 
 def insertName (x : Bytes) : List Bytes → List Bytes
   | [] => [x]
@@ -154,16 +166,36 @@ def handle (op : String) (args : List String) : Option String :=
         else if variant = "data" then showEntries (parsePackData inf inp)
         else "bad-arg"
       | _, _ => "bad-arg"
+  | "c04.final", path :: h :: store :: tbl => some <|
+      -- the file `_complete_pack` installs, if the first pass of a disk ingest succeeds (the harness then supplies
+      -- zlib's behaviour on THAT file as the second table of `c04.ingest`)
+      match bytes? h, parseStoreZ store, tbl.mapM parseZ with
+      | some inp, some sz, some t1 =>
+        let s : Store := sz.map (·.1)
+        let inf := tableInflate inp.length t1
+        let p? : Option Path := if path = "thin" then some .thin else if path = "addpack" then some .addPack else none
+        match p? with
+        | none => "bad-arg"
+        | some p =>
+          match diskFirstPass inf Sha1.sha1 p s inp with
+          | .ok (some (file, _, bases)) => "final " ++ hex (extendPack Sha1.sha1 (tableDeflate sz) file bases)
+          | _ => "-"
+      | _, _, _ => "bad-arg"
   | "c04.ingest", kind :: path :: h :: store :: invalid :: tbl => some <|
-      match bytes? h, parseStore store, (splitList invalid).mapM bytes?, (splitBar tbl).1.mapM parseZ, (splitBar tbl).2.mapM parseZ with
-      | some inp, some s, some inv, some t1, some t2 =>
-        let inf := tableInflate2 inp (extendPack Sha1.sha1 inp) t1 t2
+      match bytes? h, parseStoreZ store, (splitList invalid).mapM bytes?, (splitBar tbl).1.mapM parseZ, (splitBar tbl).2.mapM parseZ with
+      | some inp, some sz, some inv, some t1, some t2 =>
+        let s : Store := sz.map (·.1)
         let valid := fun (o : Obj) => !(inv.contains o.name)
         let p? : Option Path := if path = "thin" then some .thin else if path = "addpack" then some .addPack else none
         match p? with
         | none => "bad-arg"
         | some p =>
-          let r := if kind = "disk" then some (ingestDisk inf Sha1.sha1 valid p s inp)
+          let inf1 := tableInflate inp.length t1
+          let final := match diskFirstPass inf1 Sha1.sha1 p s inp with
+            | .ok (some (file, _, bases)) => extendPack Sha1.sha1 (tableDeflate sz) file bases
+            | _ => []
+          let inf := tableInflate2 inp final t1 t2
+          let r := if kind = "disk" then some (ingestDisk inf Sha1.sha1 (tableDeflate sz) valid p s inp)
                    else if kind = "mem" then some (ingestMem inf Sha1.sha1 valid p s inp) else none
           match r with
           | none => "bad-arg"
